@@ -142,10 +142,10 @@ func absentShape(r RefResult, height int) string {
 	return "inside_edge"
 }
 
-// RefRangeModel answers what a sound range proof may claim: the model's entries in [first, last].
+// modelRange answers what a sound range proof may claim: the model's entries in [first, last] (last nil: unbounded).
 func modelRange(model map[felt.Felt]felt.Felt, first, last *felt.Felt) (keys, vals []felt.Felt) {
 	for _, k := range sortedModelKeys(model) {
-		if k.Cmp(first) >= 0 && (last == nil || k.Cmp(last) <= 0) {
+		if feltBig(&k).Cmp(feltBig(first)) >= 0 && (last == nil || feltBig(&k).Cmp(feltBig(last)) <= 0) {
 			keys = append(keys, k)
 			vals = append(vals, model[k])
 		}
